@@ -45,7 +45,7 @@ def rule_P2(ctx):
                 if not ok:
                     res.fail(f.q, 'area', f.loc(nid), '%s writes the area output on a path where the object may be a '
                              'polyline (polylines report only the perimeter)' % f.name)
-    res.floor('area stores', n, 12)
+    res.floor('area stores', n, 9)
     return res
 
 
@@ -66,7 +66,7 @@ def rule_P3(ctx):
             if not ok:
                 res.fail(POLY + '::Clear', m, fs['Clear'].loc(), 'AddPoint/AddEdge modify %s but Clear() does not reset it: '
                          'a polygon built after Clear() inherits state from the previous one' % m)
-    res.floor('mutated members checked', n, 15)
+    res.floor('mutated members checked', n, 12)
     return res
 
 
@@ -155,7 +155,7 @@ def rule_P4(ctx):
             if not ok:
                 res.fail(f.q, tce['name'] + '/unpaired', f.loc(j), '%s is applied to a pair of longitudes that no solver call '
                          'in %s produced' % (tce['name'], f.name))
-    res.floor('edges and crossing calls', n, 40)
+    res.floor('edges and crossing calls', n, 25)
     return res
 
 
@@ -200,5 +200,5 @@ def rule_P5(ctx):
                      'not request it on that path (unrequested when %s)' % (inst, f.name, who, what, L._show(frozenset(c - {DECL} for c in vu))))
         if len(res.samples) < 5:
             res.samples.append({'fn': '%s<%s>' % (f.name, inst), 'sinks': lic.nsinks, 'mask': menv[inst]['this._mask'].show()})
-    res.floor('functions', nf, 12)
+    res.floor('functions', nf, 9)
     return res
